@@ -18,7 +18,12 @@ ALWAYS_SEARCH = True
 RULE = ('fitted GaussianMultivariate models of 2-6 columns x 40-150 training rows drawn from a random latent '
         'correlation; marginals per column from Gaussian / Gamma / Beta / Uniform / GaussianKDE plus derived columns '
         '(constant, exact affine copy, near-copy with 1e-6 noise); labels are strings (incl. spaces, unicode), ints '
-        '(shuffled, non-contiguous) or mixed.  Query batches of 1-50 rows (search: up to 200): training rows, '
+        '(shuffled, non-contiguous) or mixed; the `distribution` argument cycles through: one class, one qualified name, '
+        'one instance, full dict in table order, full dict with permuted keys, partial dict naming an inner / the last / a '
+        'leading column (unnamed columns: default Univariate), dict with an unknown key, ndarray training input with an '
+        'int-keyed dict.  The TRAINING-TABLE column order is kept separately from model.columns: plain arrays are '
+        'presented in table order and must agree with the labelled forms and with the reference addressed by label.  '
+        'Query batches of 1-50 rows (search: up to 200): training rows, '
         'jittered training rows, points 10^1..10^8 standard deviations outside, mixed.  Every batch is presented as: '
         'DataFrame in training order, 2-3 column permutations, with 1-2 extra columns interleaved, 2-d array, '
         'and for single rows Series (training and permuted index) and 1-d array; plus a malformed stream (subsets of '
@@ -99,8 +104,13 @@ def call(f):
 class M:
     """a fitted model + what the generators need about its training data."""
 
-    def __init__(self, model, train, labels, fams, tag):
-        self.model, self.train, self.labels, self.fams, self.tag = model, train, labels, fams, tag
+    def __init__(self, model, train, labels, fams, tag, config='dict-full'):
+        # `labels`: the column labels of the TRAINING TABLE in table order (what a plain array is read in);
+        # `cols`: model.columns, the order the model stores its univariates / correlation in (what the Lean
+        # model's `cols` is).  The property demands nothing about `cols`, only about `labels`.
+        self.model, self.train, self.labels, self.fams, self.tag = model, train, list(labels), fams, tag
+        self.config = config
+        self.cols = list(model.columns)
         self.d = len(labels)
         self.mu = train.mean(axis=0)
         sd = train.std(axis=0)
@@ -115,7 +125,7 @@ class M:
             self.singular = True
         self.kde = any(type(u).__name__ == 'GaussianKDE' or type(getattr(u, '_instance', None)).__name__ == 'GaussianKDE'
                        for u in model.univariates)
-        self.id = digest(train, [tok(l) for l in labels], fams)
+        self.id = digest(train, [tok(l) for l in labels], fams, config)
 
 
 def _labels(rng, d):
@@ -133,13 +143,23 @@ def _labels(rng, d):
     return ls, kind
 
 
-def make_model(rng, nr, force=None):
+CONFIGS = ('dict-full', 'class', 'name', 'instance', 'dict-full-permuted', 'dict-partial-inner', 'dict-partial-last',
+           'dict-partial-leading', 'dict-unknown-key', 'array-train-int-dict')
+FQN = {'gaussian': 'copulas.univariate.gaussian.GaussianUnivariate', 'gamma': 'copulas.univariate.gamma.GammaUnivariate',
+       'beta': 'copulas.univariate.beta.BetaUnivariate', 'uniform': 'copulas.univariate.uniform.UniformUnivariate',
+       'kde': 'copulas.univariate.gaussian_kde.GaussianKDE'}
+
+
+def make_model(rng, nr, force=None, config='dict-full'):
     from copulas.multivariate import GaussianMultivariate
     from copulas.univariate import BetaUnivariate, GammaUnivariate, GaussianKDE, GaussianUnivariate, UniformUnivariate
     cls = {'gaussian': GaussianUnivariate, 'gamma': GammaUnivariate, 'beta': BetaUnivariate,
            'uniform': UniformUnivariate, 'kde': GaussianKDE}
     d = rng.choice([2, 2, 3, 3, 4, 5, 6])
     n = rng.choice([40, 80, 150])
+    if config.startswith('dict-partial') or config in ('dict-unknown-key', 'array-train-int-dict'):
+        # unnamed columns get the default `Univariate` (family selection, ~0.2 s per column): keep these small
+        d, n = max(d, 3) if d <= 4 else 4, min(n, 80)
     A = nr.normal(size=(d, d))
     S = A @ A.T + rng.choice([0.05, 0.5, 3.0]) * np.eye(d)
     s = 1 / np.sqrt(np.diag(S))
@@ -147,13 +167,18 @@ def make_model(rng, nr, force=None):
     Z = nr.multivariate_normal(np.zeros(d), C, size=n)
     cols, fams, dist = [], [], {}
     labels, lkind = _labels(rng, d)
+    if config == 'array-train-int-dict':
+        labels, lkind = list(range(d)), 'int'      # what pd.DataFrame(ndarray) names the columns
+    single = rng.choice(['gaussian', 'uniform', 'kde']) if config in ('class', 'name', 'instance') else None
     special = force if force is not None else rng.choice(['none', 'none', 'none', 'const', 'copy', 'nearcopy'])
     pool = FAMS
     if special == 'parametric':          # scipy marginals only: their cdf accepts the 2-d block of a duplicated label
         special, pool = 'none', ('gaussian', 'uniform')
     for j in range(d):
         fam = rng.choice(pool)
-        if j == 0 and special in ('copy', 'nearcopy'):
+        if single is not None:
+            fam = single if single in pool else 'gaussian'
+        if j == 0 and single is None and special in ('copy', 'nearcopy'):
             # the base column of a dependent pair: a family whose fit is affine-equivariant, so that the two score
             # columns coincide (up to the noise) and the stored correlation is (near-)singular
             fam = rng.choice(['gaussian', 'uniform', 'kde'] + (['gamma'] if special == 'nearcopy' else []))
@@ -184,11 +209,41 @@ def make_model(rng, nr, force=None):
         fams[j] = fams[j] + '*' + special
     train = np.column_stack(cols)
     df = pd.DataFrame(train, columns=labels)
-    for lab, fam in zip(labels, fams):
-        dist[lab] = cls[fam.split('*')[0]]
+
+    def value(fam):        # a dict value in one of the three accepted spellings
+        fam = fam.split('*')[0]
+        return rng.choice([cls[fam], cls[fam], FQN[fam], cls[fam]()])
+    if config == 'class':
+        dist = cls[fams[0].split('*')[0]]
+    elif config == 'name':
+        dist = FQN[fams[0].split('*')[0]]
+    elif config == 'instance':
+        dist = cls[fams[0].split('*')[0]]()
+    else:
+        named = list(range(d))
+        if config == 'dict-full-permuted':
+            while d >= 2 and named == list(range(d)):
+                rng.shuffle(named)
+        elif config == 'dict-partial-inner':
+            named = [rng.randrange(1, d - 1)] if d >= 3 else [d - 1]
+        elif config == 'dict-partial-last':
+            named = [d - 1] + ([rng.randrange(1, d - 1)] if d >= 3 and rng.random() < 0.4 else [])
+        elif config == 'dict-partial-leading':
+            named = list(range(rng.randrange(1, d)))
+        elif config in ('dict-unknown-key', 'array-train-int-dict'):
+            k = rng.choice(['full', 'nonleading', 'nonleading'])
+            named = list(range(d)) if k == 'full' else sorted(rng.sample(range(1, d), rng.randrange(1, d)), reverse=rng.random() < 0.5)
+        dist = {}
+        if config == 'dict-unknown-key' and rng.random() < 0.5:
+            dist['no such column'] = cls['kde']
+        for j in named:
+            dist[labels[j]] = value(fams[j]) if config != 'dict-full' else cls[fams[j].split('*')[0]]
+        if config == 'dict-unknown-key' and len(dist) == len(named):
+            dist[rng.choice(['no such column', 4242])] = cls['kde']
+        fams = [f if j in named else 'auto' + ('*' + f.split('*')[1] if '*' in f else '') for j, f in enumerate(fams)]
     model = GaussianMultivariate(distribution=dist)
-    model.fit(df)
-    mm = M(model, train, list(model.columns), fams, f'd={d} n={n} labels={lkind} special={special}')
+    model.fit(train if config == 'array-train-int-dict' else df)
+    mm = M(model, train, labels, fams, f'd={d} n={n} labels={lkind} special={special} config={config}', config)
     mm.dist = dist
     return mm
 
@@ -198,14 +253,27 @@ def models_for(ctx, stream, count):
     nr = ctx.nprng(stream, 'models')
     out = []
     forced = ['const', 'copy', 'nearcopy', 'none', 'parametric']
+    configs = []
     for k in range(count):
-        m = make_model(rng, nr, forced[k] if k < len(forced) else None)
+        if not configs:                      # every configuration form once per cycle, in random order
+            configs = list(CONFIGS)
+            rng.shuffle(configs)
+        special = forced[k] if k < len(forced) else None
+        config = configs.pop()
+        if special in ('parametric', 'copy', 'nearcopy') and config not in ('dict-full', 'class', 'name', 'instance', 'dict-full-permuted'):
+            # these need control over every marginal (scipy-only families / coinciding score columns)
+            configs.insert(0, config)
+            config = 'dict-full'
+        m = make_model(rng, nr, special, config)
         out.append(m)
+        ctx.count('model.config=' + m.config)
+        if m.cols != m.labels:
+            ctx.count('model.columns-stored-in-other-order-than-training-table')
         ctx.count(f'model.d={m.d}')
         if m.singular:
             ctx.count('model.correlation-singular-for-scipy')
         ctx.count('model.cond' + ('<=1e3' if m.cond <= 1e3 else '<=1e9' if m.cond <= 1e9 else '>1e9'))
-        ctx.count('model.' + m.tag.split('special=')[1])
+        ctx.count('model.' + m.tag.split('special=')[1].split()[0])
         ctx.count('model.labels=' + m.tag.split('labels=')[1].split()[0])
         for f in m.fams:
             ctx.count('marginal.' + f.split('*')[0])
@@ -292,7 +360,7 @@ def wire(c):
 def request(op, m, c, fitted=True, dcorr=None):
     return ' '.join(['gt', op, '1' if fitted else '0', '1' if m.singular else '0',
                      str(m.d if dcorr is None else dcorr), str(m.d)] +
-                    [tok(l) for l in m.labels] + wire(c))
+                    [tok(l) for l in m.cols] + wire(c))
 
 
 # =========================================================================================== plan interpreter
@@ -616,7 +684,7 @@ def run(ctx, lean):
     nr = ctx.nprng('tie')
     np.random.seed(nr.randint(2 ** 31))      # scipy's QMC integrator draws from the global stream
     tr = Track()
-    models = models_for(ctx, 'tie', 7 + 3 * ctx.scale)
+    models = models_for(ctx, 'tie', 9 + 3 * ctx.scale)
     ctx.models = models
     for m in models:
         tie_model(ctx, lean, m, rng, nr, tr, nbatch=3)
@@ -634,10 +702,13 @@ def run(ctx, lean):
 
 # =========================================================================================== oracles on the real code
 def indep_scores(m, rows):
-    """normal scores computed independently of _transform_to_normal, in training column order."""
+    """normal scores computed independently of _transform_to_normal.  `rows` is in TRAINING-TABLE column order; every
+    model column is addressed BY LABEL (the position of its label in the training table), and the result is in
+    model.columns order, i.e. the order of model.correlation's rows."""
     from copulas.utils import EPSILON
     cols = []
-    for j, u in enumerate(m.model.univariates):
+    for name, u in zip(m.model.columns, m.model.univariates):
+        j = m.labels.index(name)
         cols.append(stats.norm.ppf(np.clip(u.cdf(np.array(rows[:, j])), EPSILON, 1 - EPSILON)))
     return np.column_stack(cols)
 
@@ -652,6 +723,8 @@ def indep_logpdf(corr, Z):
 
 def inp_of(m, form, X, rows):
     return {'model': m.tag, 'marginals': m.fams, 'labels': [tok(l) for l in m.labels], 'form': form,
+            'distribution_argument': repr(getattr(m, 'dist', None))[:300], 'training_table_columns': [tok(l) for l in m.labels],
+            'model_columns': [tok(l) for l in m.cols],
             'train_digest': m.id, 'rows_training_order': vc.jsonable(rows[:4]),
             'columns': [tok(l) for l in X.columns] if isinstance(X, pd.DataFrame) else
             ([tok(l) for l in X.index] if isinstance(X, pd.Series) else None)}
@@ -705,11 +778,26 @@ def oracles(ctx, models, rng, nr, nbatch, deep):
                 r = call(lambda: mdl.probability_density(X))
                 checks += 1
                 if r[0] != 'ok' or not same_bits(r[1], p0):
+                    arr = form in ('arr1', 'arr2')
                     ctx.fail_input('probability_density', inp_of(m, form, X, rows),
                                    {'this form': r[1][:4] if r[0] == 'ok' else r[1], 'training-order DataFrame': p0[:4],
+                                    'mvn of the scores addressed by label': ref[:4],
                                     'diff': first_diff(r[1], p0) if r[0] == 'ok' else 'raises'},
+                                   'a plain 1-d / 2-d array is read in TRAINING-TABLE column order: same density as the '
+                                   'DataFrame / Series carrying the training labels' if arr else
                                    'same density for every container form / column order of the same rows',
+                                   'probability_density:array-not-read-in-training-order' if arr else
                                    f'probability_density:container-dependent[{form}]')
+                if form in ('arr1', 'arr2'):
+                    rla = call(lambda: mdl.log_probability_density(X))
+                    with np.errstate(all='ignore'):
+                        wl = np.log(ref)
+                    checks += 1
+                    if rla[0] != 'ok' or not same_bits(rla[1], wl):
+                        ctx.fail_input('log_probability_density', inp_of(m, form, X, rows),
+                                       {'this form': rla[1][:4], 'log mvn of the scores addressed by label': wl[:4]},
+                                       'a plain array is read in TRAINING-TABLE column order', 
+                                       'log_probability_density:array-not-read-in-training-order')
             # --- aliases
             checks += 1
             if not same_bits(call(lambda: mdl.pdf(base))[1], p0):
@@ -718,7 +806,7 @@ def oracles(ctx, models, rng, nr, nbatch, deep):
             if n > 1:
                 idx = list(range(n)) if n <= 6 else rng.sample(range(n), 6)
                 for i in idx:
-                    one = pd.DataFrame(rows[i:i + 1], columns=m.labels) if rng.random() < 0.5 else rows[i]
+                    one = pd.DataFrame(rows[i:i + 1], columns=m.labels) if rng.random() < 0.5 else pd.Series(rows[i], index=m.labels)
                     r = call(lambda: mdl.probability_density(one))
                     zs = call(lambda: mdl._transform_to_normal(one).ravel())
                     checks += 1
@@ -775,14 +863,17 @@ def oracles(ctx, models, rng, nr, nbatch, deep):
                                'cumulative_distribution(X) = multivariate_normal(0, stored correlation).cdf(normal scores of X) '
                                '(within the QMC error 1e-3)', 'cumulative_distribution:not-mvn-of-scores')
             forms = [f for f in forms_of(rng, m, sub) if f[0] != 'frame']
-            for form, c, X in rng.sample(forms, min(2, len(forms))):
+            arrs = [f for f in forms if f[0] in ('arr1', 'arr2')]
+            labelled = [f for f in forms if f[0] not in ('arr1', 'arr2')]
+            for form, c, X in rng.sample(labelled, 1) + rng.sample(arrs, 1):     # always one plain-array form
                 r = call(lambda: mdl.cumulative_distribution(X))
                 checks += 1
                 if r[0] != 'ok' or r[1].shape != c0[1].shape or not np.all(np.abs(r[1] - c0[1]) <= EPS_CDF):
                     ctx.fail_input('cumulative_distribution', inp_of(m, form, X, sub),
                                    {'this form': r[1], 'training-order DataFrame': c0[1]},
                                    'same CDF (within the QMC error 1e-3) for every container form / column order',
-                                   f'cumulative_distribution:container-dependent[{form}]')
+                                   'cumulative_distribution:array-not-read-in-training-order' if form in ('arr1', 'arr2')
+                                   else f'cumulative_distribution:container-dependent[{form}]')
             up = sub.copy()
             js = [rng.randrange(m.d) for _ in range(k)]
             for i, j in enumerate(js):
@@ -907,6 +998,6 @@ def replay(ctx, payload):
     search(ctx, True)
     if not any(f['class'] == payload.get('class') for f in ctx.failing[before:]):
         # the models of the tie stream, in case the input came from run()
-        models = models_for(ctx, 'tie', 7 + 3 * 12)
+        models = models_for(ctx, 'tie', 9 + 3 * 12)
         oracles(ctx, models, ctx.rng('oracle'), ctx.nprng('oracle'), nbatch=2, deep=False)
     return any(f['class'] == payload.get('class') for f in ctx.failing[before:])
